@@ -449,8 +449,9 @@ fn ndl_texts(d: &mut Delta, rng: &mut impl Rng, n: usize) {
 fn run(env: &Env, k: u64, d: &mut Delta) {
     let mut rng = scenario_rng("C14", env.seed, k);
     match k % 4 {
-        0 | 1 => decoders(d, &mut rng, env.tier.pick(9_000, 18_000)),
-        2 => ndl_texts(d, &mut rng, env.tier.pick(1_200, 1_200)),
+        0 | 1 => decoders(d, &mut rng, env.tier.pick3(9_000, 18_000, 120)),
+        2 => ndl_texts(d, &mut rng, env.tier.pick3(1_200, 1_200, 4)),
+        _ if env.tier == crate::Tier::Tiny => decoders(d, &mut rng, 120),
         _ => inject(env, k, d, &mut rng),
     }
     if k < 4 {
